@@ -422,15 +422,19 @@ theorem dumpDest_of_mem {t : Table} (hinv : Inv c g t) (f : Fam) {d : Net × Lis
 
 theorem clauseDest_ok {t : Table} {op : Op} (r : Res) (hinv : Inv c g t) (ha : AttrRefInv c t) {m : NhMap}
     (hnh : NhRel t m) (f : Fam) {d : Net × List DEntry} (hd : d ∈ (famObs c t f).dests) :
-    clauseDest { c := c, stale := (stepObs c op (t, r)).stale, llgr := (stepObs c op (t, r)).llgr } m (famObs c t f) d
-      = none := by
+    clauseDest { c := c, stale := (stepObs c op (t, r)).stale, llgr := (stepObs c op (t, r)).llgr } m
+      (t.rib f).deferring (famObs c t f) d = none := by
   have hfa := flagsAgree_stepObs c op (t, r)
   obtain ⟨hent, dst, hlk⟩ := dumpDest_of_mem hinv f hd
   unfold clauseDest
   show (match (famObs c t f).loc.find? (fun l => l.net = d.1) with
     | some l => checkRanking _ d.1 (eligibleOf _ m f d.1 d.2) l.paths l.ecmp true
-    | none => if (eligibleOf _ m f d.1 d.2).isEmpty then none else some "eligible-path-missing") = none
-  rw [hent, eligibleOf_obs hinv hnh _ rfl, famObs_loc_find t f (hinv.rib f) d.1]
+    | none => if ((eligibleOf _ m f d.1 d.2).isEmpty || (t.rib f).deferring) = true then none
+              else some "eligible-path-missing") = none
+  cases hdf : (t.rib f).deferring with
+  | true => rw [famObs_loc_deferring t f hdf]; simp
+  | false =>
+  rw [hent, eligibleOf_obs hinv hnh _ rfl, famObs_loc_find t f (hinv.rib f) hdf d.1]
   by_cases he : (t.elig f d.1).isEmpty = true
   · simp [he]
   · have hid : t.destId f d.1 = some dst.id := by unfold Table.destId; rw [hlk]; rfl
@@ -441,6 +445,10 @@ theorem clauseDest_ok {t : Table} {op : Op} (r : Res) (hinv : Inv c g t) (ha : A
 theorem clauseLoc_ok {t : Table} (hinv : Inv c g t) (f : Fam) {l : LocObs} (hl : l ∈ (famObs c t f).loc) :
     clauseLoc (famObs c t f) l = none := by
   have hrib := hinv.rib f
+  have hdf : (t.rib f).deferring = false := by
+    cases hx : (t.rib f).deferring with
+    | false => rfl
+    | true => rw [famObs_loc_deferring t f hx] at hl; exact absurd hl List.not_mem_nil
   obtain ⟨nd, hnd, hne, rfl⟩ := famObs_loc_mem t f hl
   have hlk : alookup nd.1 (t.rib f).dests = some nd.2 := alookup_of_mem hrib.keys hnd
   have helig : t.elig f nd.1 = nd.2.entries.filter Entry.eligible := by unfold Table.elig; rw [hlk]
@@ -451,9 +459,9 @@ theorem clauseLoc_ok {t : Table} (hinv : Inv c g t) (f : Fam) {l : LocObs} (hl :
   have h2 : (lookupNet nd.1 (famObs c t f).dests).isNone = false := by
     rw [lookupNet_eq_find, famObs_dests_find t f hrib nd.1, hlk]; rfl
   have h3 : lookupNet nd.1 (famObs c t f).lim2 = some (((t.elig f nd.1).take 2).map (·.lpid)) := by
-    rw [lookupNet_eq_find, famObs_lim2_find t f hrib nd.1]; simp [hne']
+    rw [lookupNet_eq_find, famObs_lim2_find t f hrib hdf nd.1]; simp [hne']
   have h4 : lookupNet nd.1 (famObs c t f).lim3 = some (((t.elig f nd.1).take 3).map (·.lpid)) := by
-    rw [lookupNet_eq_find, famObs_lim3_find t f hrib nd.1]; simp [hne']
+    rw [lookupNet_eq_find, famObs_lim3_find t f hrib hdf nd.1]; simp [hne']
   unfold clauseLoc
   simp only [locOf, h2, h3, h4, Bool.false_eq_true, if_false]
   rw [helig]
@@ -474,18 +482,19 @@ theorem nonEmptyList_optList {β} (l : List β) : optList (nonEmptyList l) = l :
 
 theorem clauseShown_ok {t : Table} {op : Op} (r : Res) (hinv : Inv c g t) {m : NhMap}
     (hnh : NhRel t m) (f : Fam) {d : Net × List DEntry} (hd : d ∈ (famObs c t f).dests) :
-    clauseShown { c := c, stale := (stepObs c op (t, r)).stale, llgr := (stepObs c op (t, r)).llgr } m (famObs c t f) d
-      = none := by
+    clauseShown { c := c, stale := (stepObs c op (t, r)).stale, llgr := (stepObs c op (t, r)).llgr } m
+      (t.rib f).deferring (famObs c t f) d = none := by
   obtain ⟨hent, dst, hlk⟩ := dumpDest_of_mem hinv f hd
   have hshown : optList (lookupNet d.1 (famObs c t f).nofilt) =
       ((t.entries f d.1).filter fun e => !e.filtered).map (dentryOf t.flags) := by
     rw [lookupNet_eq_find, famObs_nofilt_find t f (hinv.rib f) d.1]
     simp only [Table.entries, hlk, Option.bind_some]
     exact nonEmptyList_optList _
-  have hrank : (match (famObs c t f).loc.find? (fun l => l.net = d.1) with
+  have hrank : (t.rib f).deferring = false → (match (famObs c t f).loc.find? (fun l => l.net = d.1) with
       | some l => l.paths.map fun p => (p.src, p.attr)
       | none => ([] : List (Nat × Nat))) = (t.elig f d.1).map fun e => (e.src.id, e.attr.id) := by
-    rw [famObs_loc_find t f (hinv.rib f) d.1]
+    intro hdf
+    rw [famObs_loc_find t f (hinv.rib f) hdf d.1]
     have hid : t.destId f d.1 = some dst.id := by unfold Table.destId; rw [hlk]; rfl
     by_cases he : (t.elig f d.1).isEmpty = true
     · rw [if_pos he]
@@ -500,11 +509,14 @@ theorem clauseShown_ok {t : Table} {op : Op} (r : Res) (hinv : Inv c g t) {m : N
   unfold clauseShown
   show (if (optList (lookupNet d.1 (famObs c t f).nofilt) != d.2.filter (fun e => !e.filtered)) = true
       then some "api-list-is-not-the-unfiltered-paths"
-    else if (eligibleOf _ m f d.1 (optList (lookupNet d.1 (famObs c t f).nofilt)) ==
+    else if ((t.rib f).deferring || eligibleOf _ m f d.1 (optList (lookupNet d.1 (famObs c t f).nofilt)) ==
       (match (famObs c t f).loc.find? (fun l => l.net = d.1) with
         | some l => l.paths.map fun p => (p.src, p.attr)
         | none => ([] : List (Nat × Nat)))) = true then none else some "api-list-order-differs-from-ranking") = none
-  rw [hshown, hrank, hfilt, eligibleOf_obs_filter hinv hnh _ rfl, elig_eq_filter, List.filter_filter]
+  cases hdf : (t.rib f).deferring with
+  | true => rw [hshown, hfilt]; simp
+  | false =>
+  rw [hshown, hrank hdf, hfilt, eligibleOf_obs_filter hinv hnh _ rfl, elig_eq_filter, List.filter_filter]
   have : (t.entries f d.1).filter (fun e => e.eligible && !e.filtered) = (t.entries f d.1).filter Entry.eligible := by
     apply List.filter_congr
     intro e _
@@ -632,7 +644,8 @@ theorem orElse_none {α} (a : Option α) (b : Unit → Option α) (ha : a = none
 
 theorem checkFam_ok {t : Table} {op : Op} (r : Res) (hinv : Inv c g t) (ha : AttrRefInv c t) {m : NhMap}
     (hnh : NhRel t m) (f : Fam) :
-    checkFam { c := c, stale := (stepObs c op (t, r)).stale, llgr := (stepObs c op (t, r)).llgr } m (famObs c t f) = none := by
+    checkFam { c := c, stale := (stepObs c op (t, r)).stale, llgr := (stepObs c op (t, r)).llgr } m
+      (t.rib f).deferring (famObs c t f) = none := by
   unfold checkFam
   rw [orElse_none _ _ (firstSome_none fun d hd => clauseDest_ok r hinv ha hnh f hd),
     orElse_none _ _ (firstSome_none fun l hl => clauseLoc_ok hinv f hl),
@@ -640,9 +653,19 @@ theorem checkFam_ok {t : Table} {op : Op} (r : Res) (hinv : Inv c g t) (ha : Att
     orElse_none _ _ (firstSome_none fun v hv => firstSome_none fun d hd => clauseRsLocal_ok r hinv ha hnh f hv hd)]
   exact firstSome_none fun v hv => firstSome_none fun d hd => clauseAdjIn_ok r hinv f hv hd
 
+/-- the checker's fold of the deferring families agrees with the table -/
+def DefRel (t : Table) (df : List Fam) : Prop := ∀ f, df.contains f = (t.rib f).deferring
+
+theorem defRel_step {t t' : Table} {op : Op} {r : Res} {df : List Fam} (h : DefRel t df)
+    (hf : StepFacts t op t' r) : DefRel t' (dfStep df op) := by
+  intro f
+  rw [hf.deferring f, ← h f]
+  cases op <;> simp only [dfStep, Op.isStartDeferral, Op.isEndDeferral, Bool.false_eq_true, if_false]
+  all_goals (cases f <;> rename_i f0 <;> cases f0 <;> simp)
+
 theorem checkStep_ok {t : Table} {op : Op} {r : Res} (hinv : Inv c g t) (ha : AttrRefInv c t) {m : NhMap}
-    (hnh : NhRel t m) (hexact : ∀ ch ∈ r.chs, ch.paths = t.elig ch.fam ch.net) :
-    checkStep c m (stepObs c op (t, r)) = none := by
+    (hnh : NhRel t m) {df : List Fam} (hdf : DefRel t df) (hexact : ∀ ch ∈ r.chs, ch.paths = t.elig ch.fam ch.net) :
+    checkStep c m df (stepObs c op (t, r)) = none := by
   unfold checkStep
   have h1 : firstSome (checkChange { c := c, stale := (stepObs c op (t, r)).stale, llgr := (stepObs c op (t, r)).llgr } m
       (stepObs c op (t, r)).fams) (changesOf (stepObs c op (t, r)).res) = none := by
@@ -654,8 +677,10 @@ theorem checkStep_ok {t : Table} {op : Op} {r : Res} (hinv : Inv c g t) (ha : At
   intro fo hfo
   simp only [stepObs, allFams, List.map_cons, List.map_nil, List.mem_cons, List.not_mem_nil, or_false] at hfo
   rcases hfo with rfl | rfl
-  · exact checkFam_ok r hinv ha hnh .v4
-  · exact checkFam_ok r hinv ha hnh .ev
+  · show checkFam _ m (df.contains .v4) (famObs c t .v4) = none
+    rw [hdf .v4]; exact checkFam_ok r hinv ha hnh .v4
+  · show checkFam _ m (df.contains .ev) (famObs c t .ev) = none
+    rw [hdf .ev]; exact checkFam_ok r hinv ha hnh .ev
 
 end Rbgp.Rib
 
@@ -670,9 +695,10 @@ theorem nhRel_empty : NhRel {} [] := by
 theorem checkSteps_ok (hS : AllSound) (hR : RefSound) {c : Case} {g : Nat → Fam} (p : Profile) (ops : List Op)
     (hg : ∀ op ∈ ops, op.WF c g) (hr : ∀ op ∈ ops, op.AttrRef c)
     (t : Table) (hinv : Inv c g t) (ha : AttrRefInv c t) (m : NhMap) (hnh : NhRel t m)
+    (df : List Fam) (hdf : DefRel t df)
     (rs : SpecRef.RefSt) (hrs : RefRel t rs) (i : Nat) :
-    checkSteps c i m rs ops (List.zipWith (stepObs c) ops (runFrom p t ops).1) = .ok := by
-  induction ops generalizing t m rs i with
+    checkSteps c i m df rs ops (List.zipWith (stepObs c) ops (runFrom p t ops).1) = .ok := by
+  induction ops generalizing t m df rs i with
   | nil => simp [runFrom, checkSteps]
   | cons op ops ih =>
     obtain ⟨t', r, hstep, hrun, hinv', hfacts, hE, hX⟩ := run_step hS p ops (hg op List.mem_cons_self) hinv
@@ -685,10 +711,10 @@ theorem checkSteps_ok (hS : AllSound) (hR : RefSound) {c : Case} {g : Nat → Fa
     obtain ⟨hrs', hrc⟩ := hR c g p t op t' r rs (hg op List.mem_cons_self) hinv hinv' hstep hE hX ha ha' hrs
     rw [hres, hrc]
     simp only [Option.orElse]
-    rw [← hres, checkStep_ok hinv' ha' hnh' hfacts.exact]
+    rw [← hres, checkStep_ok hinv' ha' hnh' (defRel_step hdf hfacts) hfacts.exact]
     rw [hres]
     exact ih (fun o ho => hg o (List.mem_cons_of_mem _ ho)) (fun o ho => hr o (List.mem_cons_of_mem _ ho))
-      t' hinv' ha' _ (by rw [← hres]; exact hnh') _ hrs' (i + 1)
+      t' hinv' ha' _ (by rw [← hres]; exact hnh') _ (defRel_step hdf hfacts) _ hrs' (i + 1)
 
 theorem runFrom_length (hS : AllSound) {c : Case} {g : Nat → Fam} (p : Profile) (ops : List Op)
     (hops : ∀ op ∈ ops, op.WF c g) (t : Table) (hinv : Inv c g t) : (runFrom p t ops).1.length = ops.length := by
@@ -705,7 +731,7 @@ theorem check_observe_ok (hS : AllSound) (hR : RefSound) {c : Case} {g : Nat →
     SpecC02.check c (observe p c) = .ok := by
   unfold SpecC02.check observe run
   simp only
-  rw [checkSteps_ok hS hR p c.ops h.wf h.attrRef {} (inv_empty c g) (attrRefInv_empty c) [] nhRel_empty {} refRel_empty 0]
+  rw [checkSteps_ok hS hR p c.ops h.wf h.attrRef {} (inv_empty c g) (attrRefInv_empty c) [] nhRel_empty [] (fun f => by cases f <;> rfl) {} refRel_empty 0]
   rw [runFrom_no_panic hS p c.ops h.wf {} (inv_empty c g)]
   simp [List.length_zipWith, runFrom_length hS p c.ops h.wf {} (inv_empty c g)]
 
